@@ -504,6 +504,10 @@ func loc(fset *token.FileSet, pos token.Pos) string {
 // callSSA interprets a call to function fn with arguments args,
 // and lexical environment env, returning its result.
 // callpos is the position of the callsite.
+// runBody is returned by an external that declines a call: the function's
+// own SSA body is executed instead.
+type runBody struct{}
+
 func callSSA(i *interpreter, caller *frame, callpos token.Pos, fn *ssa.Function, args []value, env []value) value {
 	if i.mode&EnableTracing != 0 {
 		fset := fn.Prog.Fset
@@ -527,10 +531,12 @@ func callSSA(i *interpreter, caller *frame, callpos token.Pos, fn *ssa.Function,
 			if i.mode&EnableTracing != 0 {
 				fmt.Fprintln(os.Stderr, "\t(external)")
 			}
-			i.noteCall(fn, true)
-			return ext(fr, args)
+			if r := ext(fr, args); r != (runBody{}) {
+				i.noteCall(fn, true)
+				return r
+			}
 		}
-		if fn.Blocks == nil {
+		if fn.Blocks == nil && fi.ext == nil {
 			if in := intrinsics[fn.Name()]; in != nil {
 				return in(fr, args)
 			}
